@@ -31,6 +31,14 @@ class Hist1Prop:
 
     def diff(self, case, model_ok, io):
         rtol = self.RTOL if not case.get("tolerance") else getattr(self, "TOL", Fraction(1, 10**11))
+        if rtol is not None:
+            # rounding of a narrow float type anywhere in the history propagates into later results
+            import json as _json
+            blob = _json.dumps(case["ops"]) + _json.dumps([r.get("dtype") for o in io["outs"] for r in o["regs"] if r])
+            if "float16" in blob:
+                rtol = max(rtol, Fraction(1, 50))
+            elif "float32" in blob:
+                rtol = max(rtol, Fraction(1, 10**5))
         keep = self.fields_for(case)
         return diff_outputs(model_ok, io["outs"], keep, rtol)
 
